@@ -219,8 +219,128 @@ def jobs(tier, seed):
     for ci, ctx in enumerate(sorted(CONTEXTS)):
         for j in w32[ci * per_ctx:(ci + 1) * per_ctx]:
             ctx_jobs.append(('perm@' + ctx, j[1], j[2][:4 if tier == 'quick' else 12]))
-    allj = perm_jobs + ctx_jobs + idem
+    allj = perm_jobs + ctx_jobs + idem + hseed_jobs(tier, perm_jobs, rnd)
     return [('chunk', tier, allj[i:i + CHUNK]) for i in range(0, len(allj), CHUNK)] + lifted_jobs(tier, seed)
+
+
+def hseed_jobs(tier, perm_jobs, rnd):
+    """string-hash independence: shapes whose canonical order has to be decided between operands that differ only in an
+    identifier name (plain identifiers, segment selectors, addresses), and a sample of the permutation bases"""
+    out = []
+    n = 32
+    p, q = ('id', 'p', 32), ('id', 'q', 32)
+    fams = [
+        [('memseg', p, n, 'ds'), ('memseg', p, n, 'es'), ('memseg', p, n, 'fs')],
+        [('memseg', p, n, 'ds'), ('mem', p, n), ('memseg', q, n, 'ds')],
+        [('id', 'eax', n), ('id', 'ebx', n), ('id', 'zf_long_name', n)],
+        [('mem', p, n), ('mem', q, n), ('mem', ('id', 'r', 32), n)],
+        [('op', '-', (('id', 'a', n),)), ('op', '-', (('id', 'b', n),)), ('op', '-', (('id', 'c', n),))],
+        [('slice', ('id', 'z', 64), 0, 32), ('slice', ('id', 'y', 64), 0, 32), ('slice', ('id', 'x', 64), 0, 32)],
+        [('cond', ('id', 'a', n), ('id', 'b', n), ('id', 'c', n)), ('cond', ('id', 'b', n), ('id', 'a', n), ('id', 'c', n)), ('id', 'c', n)],
+        [('op', '>>', (('id', 'a', n), ('id', 'b', n))), ('op', '>>', (('id', 'b', n), ('id', 'a', n))), ('memseg', p, n, 'gs')],
+    ]
+    for fam in fams:
+        for op in G.ASSOC:
+            out.append(('hseed', ('op', op, tuple(fam)), None))
+            out.append(('hseed', ('op', op, (fam[2], ('op', op, (fam[0], ('int', 0, n))), fam[1])), None))
+    bases = [j[1] for j in perm_jobs if G.width(j[1]) == 32]
+    rnd.shuffle(bases)
+    for b in bases[:40 if tier == 'quick' else 400]:
+        out.append(('hseed', b, None))
+    return out
+
+
+def hbuild(s, consts):
+    """G.build plus memory accesses with a segment selector"""
+    if s[0] == 'memseg':
+        return X.ExprMem(hbuild(s[1], consts), s[2], X.ExprId(s[3], 16))
+    if s[0] == 'op' and any(_has_memseg(x) for x in s[2]):
+        return X.ExprOp(s[1], *[hbuild(x, consts) for x in s[2]])
+    return G.build(s, consts, X, M)
+
+
+def _has_memseg(s):
+    if s[0] == 'memseg':
+        return True
+    if s[0] == 'op':
+        return any(_has_memseg(x) for x in s[2])
+    return False
+
+
+def _strip_memseg(s):
+    if s[0] == 'memseg':
+        return ('mem', s[1], s[2])
+    if s[0] == 'op':
+        return ('op', s[1], tuple(_strip_memseg(x) for x in s[2]))
+    return s
+
+
+def skel_expr(e):
+    """structure of a result expression as nested tuples (constants are concrete in the hash-seed jobs)"""
+    if isinstance(e, X.ExprInt):
+        return ('int', e.get_size(), int(e.arg))
+    if isinstance(e, X.ExprId):
+        return ('id', e.name, e.get_size())
+    if isinstance(e, X.ExprMem):
+        return ('mem', skel_expr(e.arg), e.size, skel_expr(e.segm) if isinstance(e.segm, X.Expr) else e.segm)
+    if isinstance(e, X.ExprOp):
+        return ('op', e.op, tuple(skel_expr(a) for a in e.args))
+    if isinstance(e, X.ExprCond):
+        return ('cond', skel_expr(e.cond), skel_expr(e.src1), skel_expr(e.src2))
+    if isinstance(e, X.ExprSlice):
+        return ('slice', skel_expr(e.arg), e.start, e.stop)
+    if isinstance(e, X.ExprCompose):
+        return ('compose', tuple((skel_expr(a[0]), a[1], a[2]) for a in e.args))
+    return ('?', str(e))
+
+
+def _hseed(shape, res, tier):
+    """expr_simp with hash(str) an unconstrained symbolic integer per string: every path (= every way the comparisons on
+    those integers can come out) must produce the same expression"""
+    from vf.symex import instr
+    eng = Engine(width=80, timeout_ms=20000, max_paths=400, max_seconds=90, path_seconds=20)
+    plain = _strip_memseg(shape)
+    name = 'hash-seed ' + G.show(plain) + (' [with segment selectors]' if plain != shape else '')
+    nconst = len(G.ints_of(G.renumber(plain)))
+
+    def fn(eng):
+        instr.STR_HASH[0] = 'sym'
+        try:
+            consts = dict((k, 3 + 2 * k) for k in range(nconst + 1))
+            e = hbuild(G.renumber(shape) if plain == shape else shape, consts)
+            try:
+                r = H.expr_simp(e)
+            except PathAbort:
+                raise
+            except Exception:
+                return ('SKIP',)
+            return ('RES', skel_expr(r), str(r), eng.model_inputs(eng.witness()))
+        finally:
+            instr.STR_HASH[0] = 'real'
+    rs = eng.explore(fn)
+    res['paths'] += eng.stats['paths']
+    res['queries'] += eng.stats['queries']
+    res['solver_s'] += eng.stats['solver_s']
+    for u in eng.unexplored:
+        res['inconclusive'].append('%s: %s' % (name, u))
+    out = [r for r in rs if r[0] == 'RES']
+    for r in rs:
+        if r[0] not in ('RES', 'SKIP'):
+            res['inconclusive'].append('%s: %s' % (name, r[1] if len(r) > 1 else r[0]))
+    if not out:
+        return
+    res['obligations'] += len(out)
+    first = out[0]
+    bad = [r for r in out[1:] if r[1] != first[1]]
+    res['proved'] += len(out) - len(bad)
+    if bad:
+        res['candidates'].append({'key': 'hseed:' + c05.rule_class(plain) + ':w%d' % G.width(plain) + ('+segm' if plain != shape else ''),
+                                  'desc': '%s: %s vs %s depending on string hashes (%s / %s)' % (name, first[2], bad[0][2], first[3], bad[0][3]),
+                                  'data': {'shape': shape, 'kind': 'hseed', 'nconst': nconst, 'consts': {}}})
+    else:
+        res['nontrivial'] += 1
+        if len(res['samples']) < 3:
+            res['samples'].append({'shape': name, 'kind': 'hseed', 'paths': len(rs), 'verdict': 'one result on %d path(s) over the string-hash variables' % len(out)})
 
 
 def _ctx_table():
@@ -380,6 +500,8 @@ def run_job(job):
         res['programs'] += 1
         if kind == 'idem':
             _idem(base, res, tier)
+        elif kind == 'hseed':
+            _hseed(base, res, tier)
         else:
             _perm(base, rest, res, tier, kind.partition('@')[2])
     return res
@@ -589,7 +711,39 @@ sys.exit(1 if bad else 0)
 '''
 
 
+REPLAY_HSEED = r'''
+# replay of a C13 counterexample (string-hash independence of expr_simp) on the real code: the expression is simplified in
+# fresh interpreters under PYTHONHASHSEED 0..31; more than one rendering = violated (exit 1)
+import os, subprocess, sys
+D = %(data)r
+if len(sys.argv) > 1 and sys.argv[1] == 'child':
+    import miasmx.expression.expression as X
+    import miasmx.tools.modint as M
+    from miasmx.expression.expression_helper import expr_simp
+    from vf.gen import shapes as G
+    from vf.checks import c13
+    c13.X = X; c13.M = M
+    consts = dict((k, 3 + 2 * k) for k in range(D['nconst'] + 1))
+    shape = D['shape']
+    e = c13.hbuild(G.renumber(shape) if not c13._has_memseg(shape) else shape, consts)
+    print(expr_simp(e))
+    sys.exit(0)
+outs = {}
+for seed in range(32):
+    env = dict(os.environ, PYTHONHASHSEED=str(seed))
+    o = subprocess.run([sys.executable, os.path.abspath(__file__), 'child'], env=env, capture_output=True, text=True).stdout.strip().splitlines()
+    outs.setdefault(o[-1] if o else '<no output>', []).append(seed)
+for k, v in outs.items():
+    print('seeds', v, '->', k)
+bad = len(outs) > 1
+print('C13 replay:', 'VIOLATED' if bad else 'holds')
+sys.exit(1 if bad else 0)
+'''
+
+
 def make_replay(cnd):
+    if cnd['data'].get('kind') == 'hseed':
+        return REPLAY_HSEED % {'data': cnd['data']}
     if cnd['data'].get('kind') == 'lifted':
         return REPLAY_LIFTED % {'data': cnd['data']}
     return REPLAY % {'data': cnd['data']}
@@ -600,7 +754,7 @@ def main(argv=None):
     t0 = time.time()
     js = jobs(a.tier, a.seed)
     if a.only:
-        js = [(j[0], j[1], [it for it in j[2] if a.only in (it[0] + ' ' + G.show(it[1]))]) if j[0] == 'chunk' else j for j in js]
+        js = [(j[0], j[1], [it for it in j[2] if a.only in (it[0] + ' ' + G.show(_strip_memseg(it[1])))]) if j[0] == 'chunk' else j for j in js]
         js = [j for j in js if (j[2] if j[0] == 'chunk' else a.only in repr(j))]
     results, left = common.run_pool('vf.checks.c13', js, nproc=a.nproc, budget_s=1500 if a.tier == 'quick' else 5400)
     cov, cands, inconc, herr = c05.aggregate(results, left)
@@ -612,11 +766,11 @@ def main(argv=None):
     cov['bounds'] = ('operands from a 10-element pool (ids, constants, negations, memory, shifts, cond), arity 2..4, '
                      'permutations x {flat, left-nested, right-nested, balanced}, also embedded in six contexts (memory address, segment selector, condition, slice, non-commutative operand, concatenation slot); ' +
                      ('sampled (seeded), widths 32 and 8' if a.tier == 'quick' else 'all arity-2/3 combinations at width 32, sampled elsewhere, widths 1..64') +
-                     '; idempotence over the C05 shapes and over the source expressions of the lifted semantics of integer-core instructions decoded from symbolic bytes; PYTHONHASHSEED clause not addressed')
+                     '; idempotence over the C05 shapes and over the source expressions of the lifted semantics of integer-core instructions decoded from symbolic bytes; string-hash independence: hash(str) symbolic in explicit hash() calls (set / dict iteration order not modelled)')
     if cov['proved'] == 0:
         herr.append('vacuous: nothing proved')
     assumptions = ['structural equality of outputs decided as a z3 formula over the symbolic constants', 'z3 5.1.0', 'SInt proxy',
-                   'hash-seed independence is outside the claim']
+                   'hash-seed clause: only explicit hash() calls reaching the result are modelled (one symbolic integer per string); iteration order of sets is not']
     return common.finish(PROP, a.tier, a.seed, 'model_checking', t0, cov, assumptions, cands, herr, inconc, make_replay)
 
 
